@@ -49,12 +49,15 @@ func (a baseAlgo) SelectBeacons(_ context.Context, beacons []Beacon, resultSize 
 		return beacons
 	}
 
+	// Diversity is measured against the best (i.e., shortest) beacon. Note that
+	// result is empty for resultSize 1, thus result[0] cannot be used here.
+	best := beacons[0]
 	result := make([]Beacon, resultSize-1, resultSize)
 	copy(result, beacons[:resultSize-1])
-	_, diversity := a.selectMostDiverse(result, result[0])
+	_, diversity := a.selectMostDiverse(result, best)
 
 	// Check if we find a more diverse beacon in the rest.
-	mostDiverseRest, diversityRest := a.selectMostDiverse(beacons[resultSize-1:], result[0])
+	mostDiverseRest, diversityRest := a.selectMostDiverse(beacons[resultSize-1:], best)
 	if diversityRest > diversity {
 		return append(result, mostDiverseRest)
 	}
